@@ -359,20 +359,33 @@ func VerifC03Restart() {
 	if !m.verifC03Release(ctx, w, "c03.prerestart") {
 		rt.Fail("harness: a valid committed transaction was not captured")
 	}
-	// backfill: the checkpointer copies committed pages into the database file
-	dbf, err := db.OpenDatabase(ctx)
-	rt.Check(err == nil, "OpenDatabase")
-	for p, d := range m.overlay {
-		if p <= m.pageN {
-			rt.Check(db.WriteDatabaseAt(ctx, dbf, d, int64(p-1)*verifP, 1) == nil, "backfill write")
+	if rt.Choose("checkpoint.by", 2) == 0 {
+		// application checkpoint: the checkpointer copies committed pages into the database file and cuts
+		// the file to the committed size (what SQLite issues through the mount: page writes + ftruncate)
+		dbf, err := db.OpenDatabase(ctx)
+		rt.Check(err == nil, "OpenDatabase")
+		for p, d := range m.overlay {
+			if p <= m.pageN {
+				rt.Check(db.WriteDatabaseAt(ctx, dbf, d, int64(p-1)*verifP, 1) == nil, "backfill write")
+			}
 		}
+		if img := w.verifReadImage(); len(img) > int(m.pageN) {
+			rt.Check(db.TruncateDatabase(ctx, int64(m.pageN)*verifP) == nil, "database truncate to the committed size")
+		}
+	} else {
+		// LiteFS' own checkpoint (role change, halt, import) followed by SQLite recreating the log
+		rt.Check(db.Checkpoint(ctx) == nil, "LiteFS checkpoint")
+		wf, err := db.OpenWAL(ctx)
+		rt.Check(err == nil, "OpenWAL after the checkpoint")
+		m.wf = wf
 	}
-	if img := w.verifReadImage(); len(img) > int(m.pageN) {
-		// SQLite cuts the database file to the committed size once the log is backfilled
-		rt.Check(dbf.Truncate(int64(m.pageN)*verifP) == nil, "harness: truncate")
-		db.chksums.mu.Lock()
-		db.resetDatabasePageChecksumsAfter(m.pageN)
-		db.chksums.mu.Unlock()
+	// whichever way the log was emptied into the file: the file alone now is the image of the position
+	{
+		img := w.verifReadImage()
+		rt.Check(len(img) == int(m.pageN), "C04: database file has the committed size after the checkpoint")
+		chk, cerr := db.checksum(db.PageN(), nil)
+		rt.Check(cerr == nil && chk == verifSpecChecksum(img) && chk == db.Pos().PostApplyChecksum, "C04: after a checkpoint the checksum cache equals the from-scratch checksum of the database file and the reported checksum")
+		m.overlay = map[uint32][]byte{}
 	}
 	oldSalt1 := m.salt1
 	m.salt1, m.salt2 = rt.U32("wal.salt1b"), rt.U32("wal.salt2b")
